@@ -307,3 +307,35 @@ Proof.
     exists (firstn (Z.to_nat (Z.min (Z.of_nat (length (fst m))) k)) (fst m)).
     rewrite app_assoc, firstn_skipn. reflexivity.
 Qed.
+
+(* ---- getRawValueAlign ---- *)
+
+Lemma raw_value_align_loop_fuel : forall fuel r p, (length p < fuel)%nat ->
+  raw_value_align_loop fuel r p <> OutOfFuel.
+Proof.
+  induction fuel as [|f IH]; intros r p Hf; [lia|].
+  cbn [raw_value_align_loop]. destruct p as [|pch p1]; [discriminate|].
+  destruct (match r with rch :: _ => pch =? rch | [] => false end).
+  - unfold skip. destruct (1 <=? length r)%nat; cbn [bind]; [|discriminate]. apply IH. simpl in Hf. lia.
+  - destruct (is_hspace pch) eqn:Hh.
+    + apply IH. pose proof (next_bytes_app is_hspace (pch :: p1)) as A.
+      unfold next_bytes in *. cbn [span] in *. rewrite Hh in *.
+      destruct (span is_hspace p1) as [a b] eqn:Es. cbn [fst snd] in *.
+      apply (f_equal (@length N)) in A. rewrite app_length in A. simpl in A, Hf. simpl. lia.
+    + destruct (negb (pch =? 35)); [discriminate|].
+      destruct (skip_string [92; 35] r); [|discriminate]. apply IH. simpl in Hf. lia.
+Qed.
+
+
+Lemma get_raw_value_align_post raw parsed :
+  match get_raw_value_align raw parsed with
+  | Ok ra => exists r, raw = ra ++ r
+  | Panic => True
+  | OutOfFuel => False
+  end.
+Proof.
+  unfold get_raw_value_align.
+  pose proof (raw_value_align_loop_fuel (S (length parsed)) raw parsed ltac:(lia)) as F.
+  destruct (raw_value_align_loop (S (length parsed)) raw parsed) as [r| |] eqn:E; cbn [bind]; [|congruence|exact I].
+  exists (skipn (length raw - length r) raw). unfold since. symmetry. apply firstn_skipn.
+Qed.
